@@ -6,6 +6,7 @@ import (
 	"container/list"
 	"errors"
 	"fmt"
+	"io"
 	"log"
 	"os"
 	"slices"
@@ -37,8 +38,9 @@ type context struct {
 }
 
 type Type struct {
-	main *context        // main context
-	CR   compresult.Type // cr is the compilation result
+	main  *context        // main context
+	CR    compresult.Type // cr is the compilation result
+	stdin *bufio.Reader   // the one buffered reader all read() calls share
 }
 
 // New creates a new virtual machine using memory from m and code and data from cr.
@@ -489,9 +491,13 @@ func (vm *Type) Run(retResult bool) (value.Type, error) {
 			}
 
 		case bytecode.READ:
-			b := bufio.NewReader(os.Stdin)
-			line, err := b.ReadString('\n')
-			if err != nil {
+			// a reader per call would buffer, and lose, the input after the first line
+			if vm.stdin == nil {
+				vm.stdin = bufio.NewReader(os.Stdin)
+			}
+			line, err := vm.stdin.ReadString('\n')
+			// a last line that has no line break is still a line of input
+			if err != nil && !(err == io.EOF && line != "") {
 				return vm.dumpStack(ctxp, ip, fmt.Errorf("read error %w", err))
 			}
 			m.Push(value.NewString(line))
